@@ -334,7 +334,7 @@ class Spec(PropSpec):
         n = 400 if ctx.tier == "quick" else 3000
         if ctx.escalate:
             n *= 2
-        cases = F.handshake_ack_lost_cases() + F.hs_retx_cases() + F.accept_waker_cases() + F.port_wrap_cases() + F.rst_after_lost_data_cases()
+        cases = F.handshake_ack_lost_cases() + F.hs_retx_cases() + F.accept_waker_cases() + F.port_wrap_cases() + F.rst_after_lost_data_cases() + F.fin_wrap_cases()
         for i in range(n):
             r = i % 10
             if r < 7:
@@ -353,7 +353,10 @@ class Spec(PropSpec):
 
     def oracle(self, case, obs):
         if obs.get("panic"):
-            return []
+            # the scripts are well-formed API calls and packets the peers really sent: a panic inside the kernel
+            # (deliver / egress / a syscall) means the connection is neither closed nor reclaimed
+            return [("the turmoil-net kernel panicked in the middle of the scripted history (%s, family %s): the host's "
+                     "connections are neither closed nor reclaimed" % (str(obs["panic"])[:200], case.get("flavour")), None)]
         return c13_oracle(case, obs)
 
     def nontrivial(self, case, obs):
